@@ -20,6 +20,7 @@ EXPLANATION = (
   ' (RAISE-interval) a cue is created only for an interval that is not empty at millisecond resolution: the test compares the rounded end and begin, so an interval that rounds to distinct time codes is kept and one that does not is skipped;'
   ' (FRESH) the merging filters construct the container they push once per region, never one object shared by all regions;'
   " (PAIR-default-end) where the merging filters are not applied unconditionally the writer's finish() gives the default end to every cue that has none, not to the last list entry only;"
+  ' (LINT-k) no instance field declared with a numeric type is tested by truthiness (the number 0 would count as `not set`);'
 )
 RULE_TEXT = ("one rule instance per (function, live loop), per (flattener, element kind), per writer for SEQ-end / FIN-default; "
              "distinct = distinct (rule, construct) pairs")
@@ -194,4 +195,5 @@ def run(ctx):
   shape.check_fresh_per_iteration(ctx, common.funcs(ctx, common.ISD_FILTERS))
   for q_ in ("ttconv.srt.writer:SrtContext", "ttconv.vtt.writer:VttContext"):
     shape.check_default_end(ctx, ctx.ix.cls(q_))
+  common.check_numeric_fields(ctx, common.WRITERS)
   common.check_history_independence(ctx, common.WRITERS + common.ISD_FILTERS + ["ttconv.isd"])
